@@ -29,20 +29,28 @@ def assist(project, source, position, filename=None, debug=False):
         package, sep, _ = iname.rpartition('.')
         if (not package or package.startswith('.')) and sep:
             package += '.'
-        return prefix, list_packages(project, package, filename)
+        try:
+            return prefix, list_packages(project, package, filename)
+        except ImportError:
+            return prefix, []
 
     debug and print_dump(source.tree)
 
     marked_import = get_marked_import(source.tree)
     if marked_import:
+        # a package that cannot be found (not yet typed out, misspelt, a
+        # relative import outside a package) has nothing to propose
         head, tail = marked_import
-        if tail is None:
-            head, tail = split_pkg(head)
-            return prefix, list_packages(project, head, filename)
-        else:
-            plist = list_packages(project, head, filename)
-            module = project.get_nmodule(head, filename)
-            return prefix, sorted(set(plist) | set(module.attr_list(ctx)))
+        try:
+            if tail is None:
+                head, tail = split_pkg(head)
+                return prefix, list_packages(project, head, filename)
+            else:
+                plist = list_packages(project, head, filename)
+                module = project.get_nmodule(head, filename)
+                return prefix, sorted(set(plist) | set(module.attr_list(ctx)))
+        except ImportError:
+            return prefix, []
 
     scope = extract_scope(source, project)
 
@@ -76,21 +84,26 @@ def location(project, source, position, filename=None, debug=False):
 
     if marked_import:
         head, tail = marked_import
-        if tail is None:
-            name = project.get_nmodule(head, filename)
-        else:
-            if not tail:
-                full = head
-                head, tail = split_pkg(head)
+        try:
+            if tail is None:
+                name = project.get_nmodule(head, filename)
             else:
-                full = join_pkg(head, tail)
+                if not tail:
+                    full = head
+                    head, tail = split_pkg(head)
+                else:
+                    full = join_pkg(head, tail)
 
-            module = project.get_nmodule(head, filename)
-            name = module.get_attr(ctx, tail)
-            if not name:
-                name = project.get_nmodule(full, filename)
+                module = project.get_nmodule(head, filename)
+                name = module.get_attr(ctx, tail)
+                if not name:
+                    name = project.get_nmodule(full, filename)
+        except ImportError:
+            # the module under the cursor cannot be found: no definition
+            name = None
 
-        result = ctx.declarations(name, [])
+        if name:
+            result = ctx.declarations(name, [])
     else:
         node = get_marked_name(source.tree) or get_marked_atribute(source.tree)
         if node:
